@@ -102,9 +102,15 @@ class LoggingModel:
 # --------------------------------------------------------------------------
 # one optimiser call
 # --------------------------------------------------------------------------
-def execute_run(cfg, rid, objs=None):
+def as_values(obj):
+    """the parameter values an object holds right now"""
+    return rats(np.atleast_1d(np.asarray(obj, dtype=float)).ravel())
+
+
+def execute_run(cfg, rid, objs=None, keep=None):
     """cfg is the record's 'in' (everything needed to repeat the call).  objs (call sequences): the caller's own
-    p0 / lower_bound / upper_bound / fixed_params objects, handed to dadi as they are (their contents equal cfg's)."""
+    p0 / lower_bound / upper_bound / fixed_params objects, handed to dadi as they are (their contents equal cfg's).
+    keep: a list that receives the very object the optimiser returned as its parameters (None if the call raised)."""
     import dadi
     from dadi import Inference
     import scipy.optimize  # noqa: F401
@@ -144,6 +150,7 @@ def execute_run(cfg, rid, objs=None):
         cfg['f0'] = NONE
     model.mode = 'eval'
     b = cfg['budget']
+    returned = None
     try:
         fraw = None
         if cfg.get('constraint'):
@@ -165,13 +172,16 @@ def execute_run(cfg, rid, objs=None):
                 kw['ll_scale'] = scale
             out = fn(p0, prob.data, model, None, maxiter=b, full_output=full, **kw)
             x, fraw = (out[0], out[1]) if full else (out, None)
-        x = np.atleast_1d(np.asarray(x, dtype=float)).ravel()
+        returned = x
+        x = np.array(np.atleast_1d(np.asarray(x, dtype=float)).ravel(), copy=True)
         model.events.append({'ev': 'Return', 'x': rats(x), 'f': enc(fraw), 'scale': rat(scale)})
         model.mode = 'probe'
         model(x, None)
         model.events.append({'ev': 'Probe', 'x': rats(x), 'll': rat(model.last)})
     except Exception as e:          # recorded; the specification has no action for it
         model.events.append({'ev': 'Raised', 'type': type(e).__name__, 'msg': str(e)[:120]})
+    if keep is not None:
+        keep.append(returned)
     return {'id': rid, 'op': 'run', 'site': site_of(kind, log, on_bound) + (SEQ_SUFFIX if objs is not None else ''), 'in': cfg,
             'out': {'events': model.events}}
 
@@ -469,6 +479,8 @@ def execute_sequence(cfgs, ids):
         v = values(cfgs[0], key)
         objs[key] = np.array(v, dtype=float) if as_array and key != 'fixed' and None not in v else list(v)
     recs = []
+    results = []        # the objects the calls returned, kept as a multi-start loop keeps its (popt, ll) pairs
+    at_return = []      # their values when they were returned
     for c, rid in zip(cfgs, ids):
         for key in keys:
             want = values(c, key)
@@ -476,7 +488,16 @@ def execute_sequence(cfgs, ids):
                 have = objs[key][i]
                 if (None if have is None else float(have)) != want[i]:
                     objs[key][i] = want[i]
-        recs.append(execute_run(c, rid, objs=objs))
+        r = execute_run(c, rid, objs=objs, keep=results)
+        mine = results[-1]
+        ev = r['out']['events']
+        at_return.append(next((e['x'] for e in ev if e['ev'] == 'Return'), None))
+        earlier = [q for q in range(len(results) - 1) if results[q] is not None]
+        # the SAME objects, read again after this call (and after the in-place edits of the arguments before it)
+        r['out']['kept'] = {'calls': [ids[q] for q in earlier], 'at_return': [at_return[q] for q in earlier],
+                            'now': [as_values(results[q]) for q in earlier],
+                            'shares': [bool(mine is not None and np.shares_memory(np.asarray(mine), np.asarray(results[q]))) for q in earlier]}
+        recs.append(r)
     return recs
 
 
@@ -496,6 +517,9 @@ def sequence_records(ctx):
             order = variants[shift:] + variants[:shift]
             rng.shuffle(order)
             sessions.append(seq_cfgs(rng, order, 'mixed-%d-%d' % (shift, rep)))
+        # the brute-force search: four searches over two parameters with one fixed_params list
+        grid = [dict(c, container='list', mseed=rng.randrange(10 ** 6)) for c in edge_grid_cfgs(ctx.seed) if c['npar'] == 2][:4]
+        sessions.append([dict(c, seq={'name': 'grid-%d' % rep, 'step': c['edge'], 'k': k, 'edits': []}) for k, c in enumerate(grid)])
     recs = []
     for cfgs in sessions:
         ids = ['seq-%s-%d-%s' % (c['seq']['name'], c['seq']['k'], c['seq']['step']) for c in cfgs]
@@ -524,35 +548,84 @@ def rand_mask(rng, n, p=0.4):
     return [rng.choice([round(rng.uniform(-3, 5), 3), round(rng.uniform(-3, 5), 3), 0.0, 0]) if rng.random() < p else None for _ in range(n)]
 
 
-def observe(fn, key):
+def observe(fn, key, keep=None):
     try:
         res = fn()
-        return {key: rats(list(np.atleast_1d(np.asarray(res, dtype=float)).ravel()))}
+        out = {key: rats(list(np.atleast_1d(np.asarray(res, dtype=float)).ravel()))}
+        if keep is not None:
+            keep.append((key, res, out))
+        return out
     except Exception as e:
         return {'raised': type(e).__name__}
 
 
-def execute_static(op, inp, rid):
+class Kept:
+    """Results of earlier single calls, kept by the caller.  shares(): does a new result overlap one of them in memory;
+    finish(): read every kept object again after all later calls (out[key + '_end'])."""
+
+    def __init__(self):
+        self.items = []
+        self.spans = []         # sorted (start address, end address, index into items) of the kept ndarray results
+
+    def add(self, item):
+        import bisect
+        key, res, out = item
+        if isinstance(res, np.ndarray) and res.size:
+            lo, hi = _byte_bounds(res)
+            k = bisect.bisect_left(self.spans, (lo - 65536,))
+            shares = False
+            while k < len(self.spans) and self.spans[k][0] < hi:
+                if self.spans[k][1] > lo and np.shares_memory(res, self.items[self.spans[k][2]][1]):
+                    shares = True
+                    break
+                k += 1
+            out['shares_earlier'] = shares
+            bisect.insort(self.spans, (lo, hi, len(self.items)))
+        self.items.append(item)
+
+    def finish(self):
+        for key, res, out in self.items:
+            out[key + '_end'] = rats(list(np.atleast_1d(np.asarray(res, dtype=float)).ravel()))
+
+
+def _byte_bounds(a):
+    lo = hi = a.__array_interface__['data'][0]
+    for n, st in zip(a.shape, a.strides):
+        if st < 0:
+            lo += (n - 1) * st
+        else:
+            hi += (n - 1) * st
+    return lo, hi + a.itemsize
+
+
+def execute_static(op, inp, rid, kept=None, later=False):
+    """kept (a Kept): the caller keeps the returned object.  later (replay): the same function is called once more on
+    shifted values and the first result is read again afterwards."""
     from dadi import Inference, Misc
+    keep = [] if (kept is not None or later) and op != 'perturb' else None
+    if later and keep is not None:
+        kept = Kept()
+        inp2 = dict(inp, **{a: [v if v == NONE else rat(Fraction(v) + 1) for v in inp[a]] for a in ('x', 'y', 'fixed') if a in inp})
+        execute_static(op, inp2, rid + '-before', kept=kept)
     wrap = CONTAINERS[inp.get('container', 'list')]
     fixed = [num(v) for v in inp['fixed']] if 'fixed' in inp else None
     fx_arg = None if inp.get('fixed_is_none') else (None if fixed is None else wrap(fixed, True))
     if op == 'up':
         x = [num(v) for v in inp['x']]
         arg = np.float64(x[0]) if inp.get('scalar') else (_array(x) if inp.get('array') and x else x)
-        out = observe(lambda: Inference._project_params_up(arg, fx_arg), 'y')
+        out = observe(lambda: Inference._project_params_up(arg, fx_arg), 'y', keep)
         site = 'Inference._project_params_up'
     elif op == 'down':
         y = [num(v) for v in inp['y']]
-        out = observe(lambda: Inference._project_params_down(_array(y) if inp.get('array') and y else y, fx_arg), 'x')
+        out = observe(lambda: Inference._project_params_down(_array(y) if inp.get('array') and y else y, fx_arg), 'x', keep)
         site = 'Inference._project_params_down'
     elif op == 'up_down':
         x = [num(v) for v in inp['x']]
-        out = observe(lambda: Inference._project_params_down(Inference._project_params_up(np.array(x), fx_arg), fx_arg), 'x')
+        out = observe(lambda: Inference._project_params_down(Inference._project_params_up(np.array(x), fx_arg), fx_arg), 'x', keep)
         site = 'Inference._project_params_up'
     elif op == 'down_up':
         y = [num(v) for v in inp['y']]
-        out = observe(lambda: Inference._project_params_up(Inference._project_params_down(np.array(y), fx_arg), fx_arg), 'y')
+        out = observe(lambda: Inference._project_params_up(Inference._project_params_down(np.array(y), fx_arg), fx_arg), 'y', keep)
         site = 'Inference._project_params_down'
     elif op == 'perturb':
         params = [num(v) for v in inp['params']]
@@ -564,6 +637,11 @@ def execute_static(op, inp, rid):
         site = 'Misc.perturb_params'
     else:
         raise common.MachineryError('unknown op %s' % op)
+    if keep:
+        kept.add(keep[0])
+        if later:
+            execute_static(op, inp2, rid + '-after', kept=kept)
+            kept.finish()
     return {'id': rid, 'op': op, 'site': site, 'in': inp, 'out': out}
 
 
@@ -572,8 +650,10 @@ def static_records(ctx):
     recs = []
     nid = itertools.count()
 
+    kept = Kept()
+
     def add(op, inp):
-        recs.append(execute_static(op, inp, '%s-%d' % (op, next(nid))))
+        recs.append(execute_static(op, inp, '%s-%d' % (op, next(nid)), kept=kept))
     # deterministic part: every mask pattern over 0-3 parameters with the fixed value 0.0, the int 0 and a
     # negative number; free values include 0; list and array arguments; the scalar argument for one free entry
     for n in range(0, 4):
@@ -655,6 +735,7 @@ def static_records(ctx):
                         'lb': [enc(v) for v in lb], 'ub': [enc(v) for v in ub],
                         'lb_is_none': all(v is None for v in lb) and rng.random() < 0.5,
                         'ub_is_none': all(v is None for v in ub) and rng.random() < 0.5})
+    kept.finish()       # every kept result, read again after all later calls
     return recs
 
 
@@ -690,6 +771,14 @@ def mutate(rec):
         ev = out['events']
         if not ev or ev[-1]['ev'] != 'Probe':
             return None
+        kept = out.get('kept')
+        if kept and kept['now'] and rec['in']['seq']['k'] % 2 == 1:
+            # an earlier result of the session is said to hold other values after this call
+            kept['now'][-1][0] = rat(Fraction(kept['now'][-1][0]) + Fraction(1, 1000))
+            return rec
+        if kept and kept['now'] and rec['in']['seq']['k'] % 4 == 2:
+            kept['shares'][0] = True
+            return rec
         ret = ev[-2]
         if ret['f'] not in (NONE, 'nan', 'inf', '-inf') and Fraction(ret['f']) != 0:
             ret['f'] = rat(Fraction(ret['f']) * bump)           # reported optimum no longer the probe's likelihood
@@ -715,6 +804,9 @@ def mutate(rec):
     key = 'y' if 'y' in out else 'x'
     if not out[key]:
         return None
+    if key + '_end' in out and int(rec['id'].rsplit('-', 1)[1]) % 3 == 1:
+        out[key + '_end'][0] = rat(Fraction(out[key + '_end'][0]) + 1)     # the kept result is said to have changed later
+        return rec
     if rec['op'] == 'down_up' and any(f != NONE and y != f for f, y in zip(rec['in']['fixed'], rec['in']['y'])):
         return None         # y does not agree with the mask: nothing is demanded of the result
     out[key][-1] = rat(Fraction(out[key][-1]) * bump + Fraction(1, 10 ** 6))
@@ -762,7 +854,7 @@ def run(ctx):
         if old['op'] == 'run' and 'seq' in old['in']:
             recs = [replay_sequence(old)]
         else:
-            recs = [execute_run(old['in'], old['id']) if old['op'] == 'run' else execute_static(old['op'], old['in'], old['id'])]
+            recs = [execute_run(old['in'], old['id']) if old['op'] == 'run' else execute_static(old['op'], old['in'], old['id'], later=True)]
     else:
         recs = None
     extra = {'tolerances': {'Tau (log-likelihood, relative)': '1e-9', 'TauX (parameter values after a coordinate map, relative)': '1e-12'}}
@@ -813,7 +905,10 @@ def _pipeline1(ctx, recs, extra):
              'call sequences in one process on the SAME p0 / lower_bound / upper_bound / fixed_params objects (lists; numpy arrays), edited in place between the calls: '
              'tighten an upper bound, raise a lower bound, bounds to None, None to an upper / a lower bound, edit the start point, fix a parameter, move the fixed '
              'parameter, loosen - one session per optimiser and two sessions in which the objects pass from one optimiser to the next; every call is judged '
-             'against the values the objects held at that call (after each edit the optimum lies beyond the edited bound); '
+             'against the values the objects held at that call (after each edit the optimum lies beyond the edited bound); every session (all calls pass a '
+             'fixed_params list of the same length; plus a session of four optimize_grid searches) keeps the parameter object each call returned and reads all earlier '
+             'ones again after every later call (values at return vs now, memory overlap with the newest result); the results of the direct '
+             '_project_params_up / _project_params_down calls are kept likewise and read again after all later calls; '
              'up/down: every mask pattern over 0-3 entries with fixed 0.0 / int 0 / negative, free value 0, scalar argument; '
              'perturb: every pairing of {no argument, None entry, negative, 0, positive} bounds, equal bounds, parameters -1/0/1, folds 0/1/3, containers.',
         assumptions=['at least one parameter is free (with every parameter fixed there is nothing to optimise; nlopt refuses dimension 0)',
